@@ -4,7 +4,7 @@ import Arimaa.Lemmas.RsAgreeBoard
 Agreement of the regenerated model with the hand model: `can_pass`.
 -/
 namespace Arimaa.RsAgree
-open Arimaa Arimaa.Gen Arimaa.Gen.Rs Arimaa.Rt
+open Arimaa Arimaa.Gen Arimaa.Gen.RsBase Arimaa.Rt
 
 theorem can_pass_eq (s : GameState) (cr : Bool) :
     GameState_can_pass s cr = Res.guard (s.canPassPanics cr) (s.canPass cr) := by
